@@ -249,9 +249,9 @@ def units(tier):
         unit("tridonic/loss-during-handshake/%s" % stage, r_midshake)
 
     # ------------------------------------------------------------ serial gateways: silence
-    for gw in ("luba", "sci"):
-        def r_ser(ctx, interp, fn, gw=gw):
-            world = World(ctx, interp)
+    for gw, cancel in (("luba", False), ("sci", False), ("luba", True), ("sci", True)):
+        def r_ser(ctx, interp, fn, gw=gw, cancel=cancel):
+            world = World(ctx, interp, cancel=cancel)
             install(interp, world)
             cmd, fr = abstract_command(ctx, 16, ctx.bool("twice"), C.NumericResponse)
             if gw == "luba":
@@ -278,19 +278,33 @@ def units(tier):
             ctx.cover()
             ctx.prove("transaction-lock-released", Not(tlock.held))
             ctx.prove("transmit-lock-released", Not(proto._tx_lock.held))
+            ctx.prove("never-releases-a-lock-held-by-another-caller", And(tlock.stolen == 0, proto._tx_lock.stolen == 0),
+                      detail="cancelled at %r: released a lock it did not hold (asyncio.Lock.release does not check ownership)"
+                             % (world.cancelled_at,))
+            if cancel:
+                if out[0] == "raise" and issubclass(out[1], asyncio.CancelledError):
+                    ctx.prove("cancellation-leaves-nothing-taken", And(Not(tlock.held), Not(proto._tx_lock.held)))
+                return
             waits = [e for e in world.log if e[0] == "wait_for"]
             ctx.prove("every-wait-carries-the-documented-timeout", all(w[1] in (tmo_conf, tmo_rx) for w in waits) and len(waits) >= 1)
             if out[0] == "raise":
                 ctx.prove("silent-gateway-fails-with-a-timeout", issubclass(out[1], asyncio.TimeoutError))
             else:
                 ctx.prove("answer-or-no-answer", out[1] is not None and type_of(out[1]) is C.NumericResponse)
-        unit("serial/%s/send-under-silence" % gw, r_ser)
+        unit("serial/%s/%s" % (gw, "send-cancelled-at-any-await" if cancel else "send-under-silence"), r_ser)
 
     # ------------------------------------------------------------ transparent retry after a loss (send with exceptions off)
     # the retry loop of hid.send is the subject of C15's units; what C17 needs from them is that a command that is sent
     # again after the gateway was lost goes out as a whole caller unit again (device-type prefix included)
     import checks.c15 as C15
-    for u15 in C15.units(tier):
+    if getattr(C15, "_building_for_c17", False):
+        return U
+    C15._building_for_c17 = True
+    try:
+        c15_units = C15.units(tier)
+    finally:
+        C15._building_for_c17 = False
+    for u15 in c15_units:
         if u15.name.startswith("C15/hid.send/") and u15.name.endswith("exceptions=False"):
             U.append(Unit("C17/retry-after-loss/" + u15.name[len("C15/"):], "C17", None, None, use=u15.use, width=72,
                           kind="custom", runner=u15.runner, max_paths=200000))
